@@ -66,6 +66,9 @@ func createCmd(globalCfg *globalConfig, cfg *createConfig) error {
 		if err != nil {
 			return fmt.Errorf("failed to create big index writer: %w", err)
 		}
+		// without this, a failure before Flush leaves the writer's temporary transaction pending and the
+		// deferred tempDB.Close() above waits for it forever.
+		defer idx.Close()
 
 		iw = idx
 	} else {
